@@ -194,6 +194,20 @@ func freePort() int {
 	panic("no free port")
 }
 
+// cgf.OpenServer writes the FTP server's settings to the fixed path /tmp/config.json and reads them back at once: two harness
+// processes (a configuration child of C20, the CDR-transfer phase of C09) doing that at the same moment would read each other's
+// half-written file.  The call is made under an inter-process lock.
+func lockCgfConfig() func() {
+	dir := filepath.Join(os.TempDir(), "verif-ports")
+	_ = os.MkdirAll(dir, 0o777)
+	f, err := os.OpenFile(filepath.Join(dir, "cgf-config.lock"), os.O_CREATE|os.O_RDWR, 0o666)
+	if err != nil {
+		return func() {}
+	}
+	_ = syscall.Flock(int(f.Fd()), syscall.LOCK_EX)
+	return func() { f.Close() }
+}
+
 // releasePortsFrom gives back the ports handed out since mark (= len(portLocks) before): their servers are gone
 func releasePortsFrom(mark int) {
 	for _, f := range portLocks[mark:] {
